@@ -229,6 +229,20 @@ func suiteWrite(tier string, seed uint64, model string) *Report {
 	// characters lying across every multiple of 4096
 	long1 := strings.Repeat("a", 4095) + "\u00e9\u00e9" + strings.Repeat("b", 4093) + "\u20ac\u20ac" + strings.Repeat("c", 4090) + "\U0001F600\U0001F600"
 	long2 := strings.Repeat("\u20ac", 3000)
+	// rows of an aligned table whose columns hold different kinds (a map in one row, an array, a
+	// scalar or nothing in another): pretty's align must not lose members
+	mixed := []any{
+		[]any{[]any{map[string]any{"a": int64(1)}}, []any{[]any{map[string]any{"x": int64(1), "y": int64(2)}}}},
+		[]any{[]any{map[string]any{"a": map[string]any{"b": false}}}, []any{[]any{map[string]any{}, false, map[string]any{"x": int64(1), "y": int64(2)}, []any{int64(-1), "s"}}, 3.5}},
+		[]any{map[string]any{"k": []any{int64(1), int64(2)}}, map[string]any{"k": map[string]any{"x": int64(1), "y": int64(2)}}},
+		[]any{map[string]any{"k": map[string]any{"p": int64(1)}}, map[string]any{"k": []any{map[string]any{"x": int64(1)}, int64(2)}}, map[string]any{"k": "s"}},
+		[]any{[]any{int64(1), []any{int64(2)}}, []any{map[string]any{"x": int64(1)}, map[string]any{"y": []any{int64(3)}}}},
+	}
+	for _, t := range mixed {
+		for _, mask := range []int{0, 2, 8} {
+			cases = append(cases, cs{t, 0, mask, -1})
+		}
+	}
 	for _, t := range []any{oddKeys, []any{oddKeys, map[string]any{"o": oddKeys}}} {
 		for _, mask := range []int{0, 2, 16, 18} {
 			for _, ind := range []int{0, 2} {
